@@ -124,9 +124,28 @@ def on_ref_entity(kind, l_key, X, tol=1e-12):
 def work_elemref(kind, out):
     ref = REF[kind]
     for ent in entries(kind):
-        if ent.family == 'unclassified' or ent.wrapper == 'composite':
+        if ent.family == 'unclassified':
             continue
         elem = ent.make()
+        # wrappers: per-entity counts follow from the components (independent of the wrapper's arithmetic)
+        if ent.wrapper is not None:
+            cnt = lambda e: np.array([e.nodal_dofs, getattr(e, 'edge_dofs', 0), e.facet_dofs, e.interior_dofs])  # noqa: E731
+            got = cnt(elem)
+            if ent.wrapper == 'vector':
+                want = cnt(elem.elem) * elem.dim
+            elif ent.wrapper == 'composite':
+                want = sum(cnt(e) for e in elem.elems)
+            else:
+                inner = elem.elem
+                r = REF[kind]
+                want = np.array([0, 0, 0, inner.nodal_dofs * r['nn']
+                                 + (getattr(inner, 'edge_dofs', 0) * len(r['edges']) if r['edges'] and r['dim'] == 3 else 0)
+                                 + (inner.facet_dofs * len(r['facets']) if r['dim'] >= 2 else 0) + inner.interior_dofs])
+            out.ev()
+            if not np.array_equal(got, want):
+                out.violation(f"C04|{ent.name}|reference|wrapper-counts", f"(nodal, edge, facet, interior) DOF counts {got.tolist()} "
+                              f"but the components give {want.tolist()}", case={'element': ent.name})
+                continue
         dl = getattr(elem, 'doflocs', None)
         if dl is None:
             continue
@@ -292,7 +311,7 @@ def deep_checks(st, m, T, ent, elem, keys, ed, N, bad, out):
         return
     # DOF locations: the same mapped point from every cell that references the DOF
     dl = getattr(b, 'doflocs', None)
-    if dl is not None and ent.wrapper != 'composite':
+    if dl is not None:
         try:
             loc = b.mapping.F(b.elem.doflocs.T)       # (dim, nt, Nbfun)
         except Exception:
